@@ -401,6 +401,21 @@ func init() {
 			}
 			corpus = append(corpus, sb.String()+"3 X\n4 Y\n0 Z\n")
 		}
+		// wide levels: many siblings below one node, many roots, and a dedent back to each
+		for _, w := range []int{8, 9, 16, 17, 64, 65, 129, 257, c.N(1025, 5000)} {
+			var sb strings.Builder
+			sb.WriteString("0 @I1@ INDI\n")
+			for i := 0; i < w; i++ {
+				fmt.Fprintf(&sb, "1 NOTE n%d\n", i%7)
+				if i%5 == 0 {
+					sb.WriteString("2 CONT c\n3 X\n")
+				}
+			}
+			for i := 0; i < w; i++ {
+				fmt.Fprintf(&sb, "0 @N%d@ NOTE r\n", i)
+			}
+			corpus = append(corpus, sb.String())
+		}
 		for _, t := range corpus {
 			c02all(c, t)
 		}
